@@ -7,6 +7,8 @@
    Row keys are NumPy's business (np.delete / a[row_key] = v on every block alike): they appear as
    functions on one column that are mapped over the columns. *)
 Require Import SF.Prelude SF.PySlice SF.Dtype SF.Blocks.
+(* which walks ask for ascending targets: constants REGENERATED from the source on every run *)
+Require Import Gen.Gen_c08.
 
 (* ---- util.slice_to_ascending_slice, typed (Proofs/BlocksUpdateKey.v: equal to Proofs.AscSliceRefine.asc_typed,
    which is proved equal to the kernel REGENERATED from the source) ---- *)
@@ -82,6 +84,10 @@ Definition ncols (t : tb) : Z := Z.of_nat (length (tb_index t)).
 Definition block_slices_asc (t : tb) (k : ckey) : res (list (Z * slice)) :=
   key_to_block_slices t (asc_key k (ncols t)).
 
+(* _key_to_block_slices(key, retain_key_order=retain) *)
+Definition block_slices_for (retain : bool) (t : tb) (k : ckey) : res (list (Z * slice)) :=
+  if retain then key_to_block_slices t k else block_slices_asc t k.
+
 (* b[:, s] of a 2-D block *)
 Definition cols_slice (b : block) (s : slice) : option block :=
   match slice_list (b_cols b) s with
@@ -150,7 +156,7 @@ Fixpoint drop_walk (bi : Z) (t : tb) (ts : list (Z * slice)) : res (list block) 
 Definition M_drop_blocks (t : tb) (ck : option ckey) (rowf : list A -> list A) : res tb :=
   match (match ck with
          | None => Ok []
-         | Some k => if is_nil t then Err "IndexError" else block_slices_asc t k
+         | Some k => if is_nil t then Err "IndexError" else block_slices_for retain_key_order_drop_blocks t k
          end) with
   | Err e => Err e
   | Ok ts => match drop_walk 0 t ts with
@@ -194,7 +200,7 @@ Fixpoint mask_walk (bi : Z) (t : tb) (ts : list (Z * slice)) (on off : list A) :
   end.
 
 Definition M_mask_blocks (t : tb) (k : ckey) (on off : list A) : res tb :=
-  match block_slices_asc t k with
+  match block_slices_for retain_key_order_mask_blocks t k with
   | Err e => Err e
   | Ok ts => match mask_walk 0 t ts on off with
              | Ok bs => from_blocks_strict bs
@@ -207,9 +213,10 @@ Definition M_mask_blocks (t : tb) (k : ckey) (on off : list A) : res tb :=
 Section AsType.
 Variable dt : dtype.
 Variable conv : dtype -> list A -> list A.
+Variable int_key : bool.      (* an integer column key: the target b[:, i] is a 1-D array *)
 
 Definition astype_block (b : block) : block :=
-  mk_block dt (b_1d b) (map (conv (b_dtype b)) (b_cols b)).
+  mk_block dt (b_1d b || int_key) (map (conv (b_dtype b)) (b_cols b)).
 
 Fixpoint astype_inner (b : block) (bi : Z) (ts : list (Z * slice)) (psl : Z)
   : res (list (Z * slice) * list block * Z) :=
@@ -256,7 +263,7 @@ Fixpoint astype_walk (bi : Z) (t : tb) (ts : list (Z * slice)) : res (list block
   end.
 
 Definition M_astype_blocks (t : tb) (k : ckey) : res tb :=
-  match block_slices_asc t k with
+  match block_slices_for retain_key_order_astype_blocks t k with
   | Err e => Err e
   | Ok ts => match astype_walk 0 t ts with
              | Ok bs => from_blocks_strict bs
@@ -343,7 +350,7 @@ Fixpoint assign_walk (bi : Z) (t : tb) (ts : list (Z * slice)) (voff : Z) : res 
 
 (* `k` is the key AFTER key_to_ascending_key *)
 Definition M_assign_unit_blocks (t : tb) (k : ckey) : res tb :=
-  match key_to_block_slices t k with
+  match block_slices_for retain_key_order_assign_from_iloc_by_unit t k with
   | Err e => Err e
   | Ok ts => match assign_walk 0 t ts 0 with
              | Ok bs => from_blocks_strict bs
